@@ -251,9 +251,30 @@ impl World {
                     },
                     Err(e) => format!("ERR:{e:?}"),
                 };
+                let mut stored_rows: Option<Vec<String>> = None;
                 let mirror = match &mirror_storage {
                     Some(ms) => match ms.read_vault(id).await {
-                        Ok(v) => Self::fmt_vault(&ap, &v).await,
+                        Ok(v) => {
+                            // the rows of the stored vault in storage order (file order / row order): id8:body
+                            let mut rows = vec![];
+                            for (sid, commit) in v.iter() {
+                                let body = match ap.decrypt_secret(commit, None).await {
+                                    Ok((meta, Secret::Note { text, .. })) => {
+                                        use secrecy::ExposeSecret;
+                                        let enc = |s: &str| s.replace([' ', ',', ':', ';', '|'], "_");
+                                        let mut tags: Vec<String> = meta.tags().iter().cloned().collect();
+                                        tags.sort();
+                                        format!("{}={}{}{}", enc(meta.label()), enc(text.expose_secret()), if meta.favorite() { "!" } else { "" },
+                                            tags.iter().map(|t| format!("#{t}")).collect::<String>())
+                                    }
+                                    Ok((meta, _)) => format!("{}=?", meta.label().replace([' ', ',', ':', ';', '|'], "_")),
+                                    Err(_) => "UNDECRYPTABLE".into(),
+                                };
+                                rows.push(format!("{}:{}", &sid.to_string()[..8], body));
+                            }
+                            stored_rows = Some(rows);
+                            Self::fmt_vault(&ap, &v).await
+                        }
                         Err(e) => format!("ERR:{}", format!("{e:?}").replace(' ', "_")),
                     },
                     None => "ERR:nostorage".into(),
@@ -302,6 +323,9 @@ impl World {
                     }
                 }
                 lines.push(format!("!{who} events {fname} {}", evs.join(",")));
+                if let Some(rows) = stored_rows {
+                    lines.push(format!("!{who} rows {fname} {}", rows.join(",")));
+                }
                 lines.push(format!("{who} folder {fname} served {served}"));
                 lines.push(format!("{who} folder {fname} reduced {reduced}"));
                 lines.push(format!("{who} folder {fname} mirror {mirror}"));
